@@ -109,7 +109,7 @@ def apply_defect(rng, now, base, name_spec):
 
 SCOPESETS = [["read", "write"], ["read"], ["write"], ["read", "write", "extra"], ["Read"], ["relay:admin"], ["read ", "writer"],
              ["write", "relay:stats"], ["host"], ["read", "read"], ["write", "write"], ["read", "read", "read"], ["read", "write", "read"],
-             ["write", "read", "write", "write"]]
+             ["write", "read", "write", "write"], ["thread"], ["readonly"], ["rewrite"], ["read", "overwrite:config"], ["writer", "bread"], ["READ", "WRITE"]]
 ADMIN_SCOPES = [["relay:admin"], ["relay:admin", "read"], ["relay:admin "], ["Relay:Admin"], ["relay:admins"], ["admin"],
                 ["relay:stats"], ["read", "write"], ["relay:stats", "relay:admin"], ["relay:admin:x"], ["relay:admin:"], ["relay:stats:x"], ["relay:stats:"],
                 ["relay"], ["relay:"], [":admin"], ["relay::admin"], ["xrelay:admin"], ["relay:admin,relay:stats"], ["relay:*"], ["*"], [""]]
@@ -194,7 +194,7 @@ class RelayMode(vlib.Mode):
             for _ in range(rng.choice([2, 3, 4, 5])):
                 t, b = rng.choice(tops), rng.choice(BIDS)
                 sc = rng.choice([["read", "write"], ["read", "write"], ["read"], ["write"], ["write", "x"], ["read", "relay:stats"],
-                                 ["read", "read"], ["write", "write"], ["read", "read", "read"]])
+                                 ["read", "read"], ["write", "write"], ["read", "read", "read"], ["thread", "write"], ["read", "rewrite"]])
                 case.append(f"session {tok(now, topic=sval(t), bid=sval(b), scopes=lval(sc))} {hx(t)}")
                 case.append(f"ws {hx('/session/' + t)} c{len(st['codes'])}")
                 st["codes"].append(t); st["joined"] = st.get("joined", 0) + 1
@@ -281,7 +281,8 @@ class RelayMode(vlib.Mode):
                 cred = admin() if rng.random() < 0.6 else rng.choice([
                     tok(now, scopes=lval(rng.choice(ADMIN_SCOPES)), topic="a", prefix="a", bid="a"),
                     admin(sig="badsecret"), admin(exp=f"i{now}"), admin(exp="a"), admin(aud=lval(["nope"])), "-", tok(now),
-                    admin(iat="a"), admin(iat="a"), admin(nbf="a"), admin(iat="a", nbf="a")])
+                    admin(iat="a"), admin(iat="a"), admin(nbf="a"), admin(iat="a", nbf="a"), admin(nbf=f"i{now + 3600}"), admin(nbf=f"i{now + 1}"),
+                    admin(iat=f"i{now + 3600}")])
                 bid = rng.choice([sval(rng.choice(BIDS))] * 6 + ["a", "s-"])
                 exp = rng.choice([sval(str(now + 500))] * 5 + [sval(str(now)), sval(str(now - 1)), "a", sval("abc"), sval("-5"),
                                                                    sval("9223372036854775808"), sval("+7"), "s-", sval("1e3"), sval("-9223372036854775808"),
@@ -301,7 +302,7 @@ class RelayMode(vlib.Mode):
                 if cred == admin(): used.append(case[-1])
             elif r < 0.87:
                 cred = stats() if rng.random() < 0.6 else rng.choice([tok(now, scopes=lval(rng.choice(ADMIN_SCOPES)), topic="a", prefix="a", bid="a"),
-                                                                      stats(sig="tampered"), stats(exp="a"), "-", tok(now)])
+                                                                      stats(sig="tampered"), stats(exp="a"), "-", tok(now), stats(nbf=f"i{now + 3600}"), stats(iat="a")])
                 case.append(f"status {cred}")
                 if cred == stats(): used.append(case[-1])
             elif r < 0.93:
